@@ -19,7 +19,13 @@ fn stamp() -> u64 {
     SEQ.fetch_add(1, Ordering::SeqCst)
 }
 
+/// The digest of a snapshot; a snapshot whose accessors panic (e.g. a flow listed without its state) is torn.
 fn digest(st: &State) -> Value {
+    std::panic::catch_unwind(std::panic::AssertUnwindSafe(|| digest_inner(st)))
+        .unwrap_or_else(|_| json!({"rc0":-1,"sent":[],"flows":[],"err":false,"torn":true}))
+}
+
+fn digest_inner(st: &State) -> Value {
     let f0 = State::default_flow_id();
     let sent: Vec<usize> = st.hops().iter().map(trippy_core::Hop::total_sent).collect();
     let flows: Vec<Value> = st
@@ -56,6 +62,13 @@ pub fn run(seed: u64, runs: usize, pause_us: u64, out: &mut dyn Write) -> Vec<Va
             },
             log_st: false,
             snap: "none".into(),
+            // every other run the tracer fails half way (a fatal receive error): from then on snapshots must show the
+            // error together with the rounds, until a clear removes both
+            faults: if r % 2 == 1 {
+                vec![crate::scenario::Fault { at_send: -1, from_send: 0, until_send: 0, at_recv: (rounds as i64) * 3, op: "select".into(), kind: "other".into() }]
+            } else {
+                Vec::new()
+            },
             ..Scenario::default()
         };
         let tracer = build_tracer(&sc).expect("build");
@@ -85,13 +98,14 @@ pub fn run(seed: u64, runs: usize, pause_us: u64, out: &mut dyn Write) -> Vec<Va
         }
         // clearer
         {
+            let clear_every_us: u64 = [150u64, 300, 700][r % 3];
             let t = tracer.clone();
             let stop = stop.clone();
             handles.push(std::thread::spawn(move || {
                 let mut ev: Vec<(u64, Value)> = Vec::new();
                 let mut n = 0;
-                while !stop.load(Ordering::SeqCst) && n < 200 {
-                    std::thread::sleep(std::time::Duration::from_micros(700));
+                while !stop.load(Ordering::SeqCst) && n < 600 {
+                    std::thread::sleep(std::time::Duration::from_micros(clear_every_us));
                     let s0 = stamp();
                     t.clear();
                     let s1 = stamp();
@@ -121,9 +135,20 @@ pub fn run(seed: u64, runs: usize, pause_us: u64, out: &mut dyn Write) -> Vec<Va
                 },
             );
             let _ = sim::take();
-            (ev.into_inner(), res.is_ok())
+            let mut ev = ev.into_inner();
+            if res.is_err() {
+                // the error was recorded in the state somewhere between the end of the last publication and now
+                let since = ev.last().map_or(0, |(s, _)| *s);
+                ev.push((since, json!({"e":"f0","tid":7})));
+                ev.push((stamp(), json!({"e":"f1","tid":7})));
+            }
+            (ev, res.is_ok())
         });
         let (wev, ok) = writer.join().expect("tracer thread");
+        if !ok {
+            // keep reading and clearing for a while after the failure
+            std::thread::sleep(std::time::Duration::from_millis(40));
+        }
         stop.store(true, Ordering::SeqCst);
         let mut all = wev;
         for h in handles {
